@@ -84,6 +84,9 @@ CALLEES = {
     "ErasedNode>::invalidate_node": (("C03",), "invalidation"),
     "node::invalidate_nodes_created_on_rhs": (("C03",), "invalidation of a bind's rhs nodes"),
     "state::State::propagate_invalidity": (("C03",), "invalidation"),
+    "ErasedNode>::propagate_invalidity_helper": (("C03", "C14"), "invalid-children count of an expert parent"),
+    "kind::expert::ExpertNode::incr_invalid_children": (("C14",), "invalid-children count"),
+    "kind::expert::ExpertNode::decr_invalid_children": (("C14",), "invalid-children count"),
     "ErasedNode>::remove_children": (("C05", "C11"), "unlinking"),
     "ErasedNode>::remove_child": (("C05", "C11"), "unlinking"),
     "ErasedNode>::remove_parent": (("C05", "C11"), "unlinking"),
